@@ -574,8 +574,8 @@ func (p *Prog) selectionRows(d *Dispatch, fn *ssa.Function, r *Resolver, val ssa
 	val = strip(val)
 	switch v := val.(type) {
 	case *ssa.Function:
-		ipos, ineg, _ := predsAt(r, at)
-		d.Rows = append(d.Rows, Row{Pos: append(append([]Pred{}, pos...), ipos...), Neg: append(append([]Pred{}, neg...), ineg...), Fn: unwrapBound(v), Bodies: bodies, Inner: inner, Site: at})
+		ipos, ineg, other := predsAt(r, at)
+		d.Rows = append(d.Rows, Row{Pos: append(append([]Pred{}, pos...), ipos...), Neg: append(append([]Pred{}, neg...), ineg...), Fn: unwrapBound(v), Bodies: bodies, Inner: inner, Site: at, Other: other})
 		return
 	case *ssa.Const:
 		d.Default = true
